@@ -607,6 +607,17 @@ def get_provider_ids_matching(rg_ctx):
         # would return the internal ID and the root ID as well for each RP.
         provs_with_resource = get_providers_with_root(
             rg_ctx.context, filtered_rps, forbidden_rp_ids)
+        # The in_tree filter is otherwise applied by the per resource class
+        # queries, of which a resourceless group has none.
+        if rg_ctx.tree_root_id is not None:
+            provs_with_resource = set(
+                rpids for rpids in provs_with_resource
+                if rpids[1] == rg_ctx.tree_root_id)
+        if not filtered_rps:
+            # The empty set means no filtering by required traits or
+            # aggregates was performed (only forbidden ones were given):
+            # every provider that is not forbidden matches.
+            return list(provs_with_resource)
 
     # provs_with_resource will contain a superset of providers with IDs still
     # in our filtered_rps set. We return the list of tuples of
